@@ -776,6 +776,17 @@ def h_mvref(orig: Any, self: Any, x: Any) -> Any:
         tol0 = mv_tolerance(self, x, y)
         xl, yl = jax.tree.leaves(x), jax.tree.leaves(y)
         leafwise = len(xl) == len(yl) == len(exp)      # every modelled class acts leaf by leaf: each leaf is judged in its own precision
+        rule = refmodels.DTYPE_RULES.get(name)
+        if rule is not None and leafwise:
+            for i, (a, b) in enumerate(zip(xl, yl)):
+                try:
+                    want = rule(self, a, i)
+                except Exception:  # noqa: BLE001
+                    want = None
+                if want is not None and np.dtype(b.dtype) != np.dtype(want):
+                    LOG.violation(prop, mon, f'{name}.mv/dtype', f'leaf {i}: result dtype {b.dtype}, promotion of the parameters with the '
+                                  f'{a.dtype} leaf gives {want}', expr=dense.describe(self))
+                    return
         for i, (e, g) in enumerate(zip(exp, got)):
             tol = mv_tolerance(self, xl[i], yl[i]) if leafwise else tol0
             ok, err = dense.close(e, g, tol)
